@@ -2,7 +2,11 @@
 """Regenerates /verif/MANIFEST.json from harness/props.json (claimed checks) and properties.jsonl."""
 import json, os
 ROOT = os.path.dirname(os.path.dirname(os.path.abspath(__file__)))
-props = json.load(open(os.path.join(ROOT, "harness", "props.json")))
+import glob
+props = {}
+for f in sorted(glob.glob(os.path.join(ROOT, "harness", "c[0-9][0-9]", "prop.json"))):
+    c = json.load(open(f))
+    props[c["id"]] = c
 ids = [json.loads(l)["id"] for l in open(os.path.join(ROOT, "properties.jsonl")) if l.strip()]
 checks, na = [], []
 for pid in ids:
